@@ -25,7 +25,7 @@ def build(asm, tier):
     asm.raw(stubs + al.MERGE_STUBS, 'assumed callee contracts (BTreeMap-merge leaves)')
     for n in names:
         asm.stubs.append(dict(unit=n, proved_in=''))
-    for u in al.zero_linear() + al.zero_quadratic_polynomial() + al.from_units() + [al.linear_add_f64(), al.linear_mul_f64(), al.quadratic_add_f64(), al.quadratic_mul_f64(), al.polynomial_mul_f64(), al.function_add(), al.function_mul(), al.linear_add_linear()] + al.macro_units():
+    for u in al.zero_linear() + al.zero_quadratic_polynomial() + al.from_units() + [al.linear_add_f64(), al.linear_mul_f64(), al.quadratic_add_f64(), al.quadratic_mul_f64(), al.polynomial_mul_f64(), al.function_add(), al.function_mul(), al.linear_add_linear(), al.linear_new()] + al.macro_units():
         asm.unit(u)
     asm.raw('} // mod units\n')
     asm.guard(common.guard_fn('c02', '', uses='use super::lib::*;'), 'vacuity: prelude')
@@ -37,6 +37,7 @@ proof fn vacuity_pre(r: v1::Function, a: v1::Function, b: v1::Function, m: Map<u
     return dict(
         min_items=10,
         trusted_base=common.TRUSTED_COMMON + common.T4_COLLECTIONS + [
+            'T4 std contracts of the BTreeMap entry API (entry / or_default with a prophecy-style &mut, remove) and of into_iter().map().collect() (ascending key order): prelude/btree_entry.rs',
             'T5 ASSUMED leaf contracts (BTreeMap entry/merge code, not verified): ' + ', '.join(names) + ' - each with an uninterpreted epsilon-drop remainder',
             'R25 index loop for `for term in &mut self.terms`; `.expect("Empty Function")` treated as unwrap (panic on an unset oneof: precondition of the operators)',
         ],
